@@ -209,52 +209,13 @@ func checkC02(p *Prog, r *Report) {
 	r.rule("C02.A7", "no blocking operation (channel operation outside a select with default, Sleep, WaitN, WaitGroup.Wait, socket I/O) is reachable while UDPSession.mu is held; exemptions: the user callback of Control and the socket-option setters", 2)
 	r.rule("C02.A7b", "every function that acquires a mutex releases it on every return path or defers the release", 1)
 	r.rule("C02.A10", "data that became readable is announced to a blocked reader, also when it was recovered by FEC: after the last change of the core in kcpInput the availability is tested and the token posted (= C13.W5b)", 2)
+	r.rule("C02.A12", "no empty message enters the send queue (= C01.S16): behind a zero-length message the peer's reader never makes progress", 1)
 	r.rule("C02.A11", "room made by the reader is used: after Recv has taken segments from the delivery queue every path to its return runs the loop that promotes parked segments from rcv_buf", 1)
 	r.rule("C02.A9", "the reorder heap releases the segment rcv_nxt when it is present: its comparator orders sequence numbers through the signed difference, also across the 32-bit wrap (= C12.K3)", 1)
 	r.rule("C02.A8", "Input calls flush(IKCP_FLUSH_FULL) whenever parse_una removed a segment or parse_fastack reported a hit", 1)
 	delegate(p, r, "C13", checkC13, "C13.W5b", "C02.A10")
-	{
-		recvF := p.FuncOf(p.Method("KCP", "Recv"))
-		c := p.CFG(recvF)
-		fQ, fB := p.Field("KCP", "rcv_queue"), p.Field("KCP", "rcv_buf")
-		var lastPop *Point
-		for _, s := range p.CallsTo(p.Method("RingBuffer", "Pop")) {
-			if s.Fn == recvF {
-				if _, ok := fieldBase(s.Recv, fQ); ok {
-					q, _ := c.PointOf(s.Call)
-					lastPop = &q
-				}
-			}
-		}
-		// the promotion loop: a loop whose condition tests rcv_buf and whose body pushes into rcv_queue
-		var hdr *cfg.Block
-		for _, s := range p.CallsTo(p.Method("RingBuffer", "Push")) {
-			if s.Fn != recvF {
-				continue
-			}
-			if _, ok := fieldBase(s.Recv, fQ); !ok {
-				continue
-			}
-			if lp, ok := enclosingLoop(p, s.Call).(*ast.ForStmt); ok && lp.Cond != nil && termHasField(p.ExpandHelpers(p.Term(lp.Cond)), fB) {
-				if hp, ok := c.PointOf(lp.Cond); ok {
-					hdr = hp.B
-				}
-			}
-		}
-		switch {
-		case lastPop == nil:
-			r.bad("C02.A11", recvF.Name, p.Pos(recvF.Node), "promotion of parked segments in Recv", "Recv never takes a segment from the delivery queue", "")
-		case hdr == nil:
-			r.bad("C02.A11", recvF.Name, p.Pos(recvF.Node), "promotion of parked segments in Recv", "Recv has no loop that moves segments from rcv_buf into rcv_queue: in-window segments that arrived while the delivery queue was full (already acknowledged, so never retransmitted) stay parked, rcv_nxt and the window stop moving and the connection stalls for good", "")
-		default:
-			res := c.FindPath(PathQuery{From: Point{lastPop.B, lastPop.I + 1}, ExitIsTarget: true, OnBlock: func(b *cfg.Block) (bool, bool) { return false, b == hdr }})
-			if res.Found {
-				r.bad("C02.A11", recvF.Name, p.Pos(recvF.Node), "promotion of parked segments in Recv", "a path returns from Recv after taking segments without running the promotion loop", c.DescribePath(res.Path))
-			} else {
-				r.ok("C02.A11", recvF.Name, p.Pos(recvF.Node), "promotion of parked segments in Recv", "every path from the last Pop to the return runs the rcv_buf -> rcv_queue loop")
-			}
-		}
-	}
+	checkPromotionInRecv(p, r, "C02.A11")
+	checkEmptySendRefused(p, r, "C02.A12")
 	{
 		sub := newReport("C12", r.Tier)
 		sub.curCfg = r.curCfg
@@ -696,4 +657,70 @@ func checkInputFlushTrigger(p *Prog, r *Report) {
 		}
 	}
 	r.check(okUna && okFast && okFlush, "C02.A8", input.Name, p.Pos(input.Node), "flush(FULL) when the window slid or a fast-ack hit", "flag |= (parse_una > 0) | parse_fastack; flush(FULL) under flag != 0 only", fmt.Sprintf("Input does not flush fully exactly when the send window slid or a fast-ack threshold was hit (una: %v, fastack: %v, flush under the flag only: %v): freed window or fast retransmits wait for the next interval or never happen", okUna, okFast, okFlush))
+}
+
+// checkPromotionInRecv: after Recv has taken segments from the delivery queue every path to its return runs
+// the loop that promotes parked segments from rcv_buf, and that loop is entered whenever rcv_buf holds
+// something. Shared by C02.A11 and C03.P10.
+func checkPromotionInRecv(p *Prog, r *Report, rule string) {
+	recvF := p.FuncOf(p.Method("KCP", "Recv"))
+	c := p.CFG(recvF)
+	fQ, fB := p.Field("KCP", "rcv_queue"), p.Field("KCP", "rcv_buf")
+	var lastPop *Point
+	for _, s := range p.CallsTo(p.Method("RingBuffer", "Pop")) {
+		if s.Fn == recvF {
+			if _, ok := fieldBase(s.Recv, fQ); ok {
+				q, _ := c.PointOf(s.Call)
+				lastPop = &q
+			}
+		}
+	}
+	// the promotion loop: a loop whose condition tests rcv_buf and whose body pushes into rcv_queue
+	var hdr *cfg.Block
+	extra := ""
+	for _, s := range p.CallsTo(p.Method("RingBuffer", "Push")) {
+		if s.Fn != recvF {
+			continue
+		}
+		if _, ok := fieldBase(s.Recv, fQ); !ok {
+			continue
+		}
+		if lp, ok := enclosingLoop(p, s.Call).(*ast.ForStmt); ok && lp.Cond != nil && termHasField(p.ExpandHelpers(p.Term(lp.Cond)), fB) {
+			// go/cfg splits a && b: the header is the block of the first operand
+			first := lp.Cond
+			for {
+				be, isB := ast.Unparen(first).(*ast.BinaryExpr)
+				if !isB || be.Op != token.LAND {
+					break
+				}
+				first = be.X
+			}
+			if hp, ok := c.PointOf(ast.Unparen(first)); ok {
+				hdr = hp.B
+			} else if hp, ok := c.PointOf(lp.Cond); ok {
+				hdr = hp.B
+			}
+			// the loop is entered whenever rcv_buf holds something: no other conjunct may keep it from running
+			for _, cj := range Conjuncts(p.Term(lp.Cond)) {
+				if !termHasField(p.ExpandHelpers(cj), fB) {
+					extra = pretty(cj.Key())
+				}
+			}
+		}
+	}
+	switch {
+	case extra != "":
+		r.bad(rule, recvF.Name, p.Pos(recvF.Node), "promotion of parked segments in Recv", "the promotion loop runs only when "+extra+" holds as well: parked in-order segments (acknowledged, never retransmitted) are left in rcv_buf whenever it does not — e.g. after the receive window was enlarged while the delivery queue was full — and the connection stalls for good", "")
+	case lastPop == nil:
+		r.bad(rule, recvF.Name, p.Pos(recvF.Node), "promotion of parked segments in Recv", "Recv never takes a segment from the delivery queue", "")
+	case hdr == nil:
+		r.bad(rule, recvF.Name, p.Pos(recvF.Node), "promotion of parked segments in Recv", "Recv has no loop that moves segments from rcv_buf into rcv_queue: in-window segments that arrived while the delivery queue was full (already acknowledged, so never retransmitted) stay parked, rcv_nxt and the window stop moving and the connection stalls for good", "")
+	default:
+		res := c.FindPath(PathQuery{From: Point{lastPop.B, lastPop.I + 1}, ExitIsTarget: true, OnBlock: func(b *cfg.Block) (bool, bool) { return false, b == hdr }})
+		if res.Found {
+			r.bad(rule, recvF.Name, p.Pos(recvF.Node), "promotion of parked segments in Recv", "a path returns from Recv after taking segments without running the promotion loop", c.DescribePath(res.Path))
+		} else {
+			r.ok(rule, recvF.Name, p.Pos(recvF.Node), "promotion of parked segments in Recv", "every path from the last Pop to the return runs the rcv_buf -> rcv_queue loop")
+		}
+	}
 }
